@@ -1,4 +1,7 @@
 import OrdModel.Proofs.IndexMiscReplayBalances
+import OrdModel.Proofs.IndexLiftDischargeC37Chain
+import OrdModel.Proofs.IndexLiftInsValid
+import OrdModel.Proofs.IndexMiscNoPanicLift
 /-
 C37 — index events replay to the indexed state.
 
@@ -16,9 +19,15 @@ Proved here, for every configuration:
 * for chains of consecutive blocks (heights 0,1,2,…, ≤ 2^32 transactions each) without a repeated
   txid (`RuneLift.SupplyChainOK`): burned totals (`c37_burned`, absent = 0), output balances
   (`c37_balances`, as lists) and that no balance event is left unclaimed (`c37_no_leftover`).
-The inscription components (locations, charms, ids, unbound counter) are checked on every run by
-the oracle line `ix.oracle.replay` on the implementation's own events and tables; see
-notes/C37.md for what their proofs need.
+* for chains satisfying C04's chain hypotheses (`InsLift.InsChain`: pairwise distinct non-zero
+  txids, no special-outpoint spend outside a block's first transaction, coinbase-first blocks,
+  non-decreasing heights): the inscription components — locations (`c37_inscription_locations`),
+  charms (`c37_charms_at_creation`: the charms of the `InscriptionCreated` event, plus the burned
+  bit for a transfer into an OP_RETURN output), ids (`c37_ids`) and the unbound counter
+  (`c37_unbound_counter`), all as maps; per-step lemma `c37_uil_event_mirrors_write`.
+`c37_replay` — **the full statement**: for every `Valid.validChain` chain (C16's predicate, which
+implies both sets of chain hypotheses) every component of `replay` agrees with `project`;
+`c37_replay_agrees`: the executable predicate the oracle line `ix.oracle.replay` evaluates is `true`.
 -/
 namespace Ord.Index
 
@@ -98,6 +107,119 @@ theorem c37_utxo_pass_emits_no_rune_event (cfg : Cfg) (st : State) (blk : Block)
   ⟨(indexUtxoEntries_rsame cfg st blk st1 ev1 h).1.1, (indexUtxoEntries_rsame cfg st blk st1 ev1 h).1.2,
    (indexUtxoEntries_rsame cfg st blk st1 ev1 h).2⟩
 
+/-! ## The inscription components (`Proofs/IndexLiftDischargeC37*.lean`)
+
+SEQUENCE_NUMBER_TO_SATPOINT is written at commit time from the `(sequence number, offset)` lists
+of the flushed UTXO entries, not where the event is emitted.  The proof tracks, through a block,
+that every sequence number announced by an event is *listed* (in an output entry being built, the
+UTXO cache, the pending null / unbound entry) at the satpoint the replay holds for it, or is in
+flight (scanned off a spent input, or saved for the coinbase); at the commit C04's invariant
+(`Insloc.c04_reachable`: "`seq2sp i = (o, off)` ⇔ `(i, off)` listed in entry `o`") turns the
+listing into the committed row. -/
+
+/-- **Per-step lemma: each `update_inscription_location` emits its event next to the table write
+it mirrors.**  One call appends exactly one event, naming the sequence number that is pushed
+(`flSeq`: the old one, or the next free one for a new inscription).  Replaying that event
+* keeps ids, charms and the unbound counter equal to the entry table (`EInv`): a creation appends
+  the entry with the event's id and charms; a transfer sets the burned bit exactly when the
+  destination is an OP_RETURN output of the chain (`opr`), which is what `replay` looks up;
+* sets the replayed location of that sequence number to the satpoint `lc` where the
+  `(sequence number, offset)` pair is pushed — an output entry of this transaction `t`, the null
+  entry, or the unbound entry at the running unbound counter — and no other listing changes. -/
+theorem c37_uil_event_mirrors_write (c : List Block) (cfg : Cfg) (height time : Nat)
+    (ir : Option (List (Nat × Nat))) (fl : Flotsam) (sp : SatPoint) (opr : Bool) (tgt : Target)
+    (ls ls' : LocState) (t : Txid)
+    (h : updateInscriptionLocation cfg height time ir fl sp opr tgt ls = .ok ls')
+    (htgt : ∀ v, tgt = .output v → sp.outpoint = ⟨t, v⟩) (hnull : tgt = .null → sp.outpoint = OutPoint.null)
+    (hopr : opr = isOpReturnOut c sp.outpoint)
+    (rs : ReplayState) (hE : ReplayIns.EInv rs ls.st) :
+    ∃ ev lc, ls'.ctx.events = ls.ctx.events ++ [ev] ∧
+      ReplayIns.evSeq ev = some (Insloc.flSeq ls.st.entries.length fl) ∧
+      ReplayIns.EInv (applyEvent c rs ev) ls'.st ∧
+      (applyEvent c rs ev).loc = AL.set rs.loc (Insloc.flSeq ls.st.entries.length fl) lc ∧
+      (∀ o s off, ReplayIns.lsListed t ls' o s off ↔
+        (ReplayIns.lsListed t ls o s off ∨
+          (o = lc.outpoint ∧ s = Insloc.flSeq ls.st.entries.length fl ∧ off = lc.offset))) ∧
+      ls'.ctx.flotsam = ls.ctx.flotsam :=
+  ReplayIns.uil_event c cfg height time ir fl sp opr tgt ls ls' t h htgt hnull hopr rs hE
+
+/-- the chain-level invariant behind the four theorems below -/
+theorem c37_inscription_invariant (cfg : Cfg) (chain : List Block) (st : State) (evs : List Event)
+    (h : run cfg chain = .ok (st, evs)) (hc : InsLift.InsChain chain) :
+    ReplayIns.RInvIns (evs.foldl (applyEvent chain) {}) st :=
+  ReplayIns.run_replayIns chain cfg (ReplayIns.isOpReturnOut_null chain hc.cond.txidsNonzero) chain st evs h hc.ok
+    (ReplayIns.findTx_of_nodup chain hc.cond.txidsDistinct)
+
+/-- **Inscription locations**: replaying the `InscriptionCreated` / `InscriptionTransferred`
+events (an unbound creation is located at `unbound_outpoint():k`, `k` = number of unbound creations
+before it) reproduces SEQUENCE_NUMBER_TO_SATPOINT, as a map, after every successfully indexed chain
+satisfying C04's chain hypotheses. -/
+theorem c37_inscription_locations (cfg : Cfg) (chain : List Block) (st : State) (evs : List Event)
+    (h : run cfg chain = .ok (st, evs)) (hc : InsLift.InsChain chain) (seq : Nat) :
+    AL.get (replay cfg evs chain).loc seq = AL.get (project cfg st).loc seq :=
+  (c37_inscription_invariant cfg chain st evs h hc).loc seq
+
+/-- **Charms**: the charms carried by the `InscriptionCreated` event of a sequence number, with the
+burned bit OR-ed in when a later `InscriptionTransferred` moves it into an OP_RETURN output of the
+chain, are the charms of its entry. -/
+theorem c37_charms_at_creation (cfg : Cfg) (chain : List Block) (st : State) (evs : List Event)
+    (h : run cfg chain = .ok (st, evs)) (hc : InsLift.InsChain chain) (seq : Nat) :
+    AL.get (replay cfg evs chain).charms seq = AL.get (project cfg st).charms seq := by
+  have := (c37_inscription_invariant cfg chain st evs h hc).einv.charms seq
+  show AL.get (evs.foldl (applyEvent chain) {}).charms seq =
+    AL.get ((enumFrom 0 st.entries).map (fun p => (p.1, p.2.charms))) seq
+  rw [this, ReplayIns.get_enumFrom_map]
+  simp
+
+/-- **Ids**: the id announced at creation is the id of the entry with that sequence number. -/
+theorem c37_ids (cfg : Cfg) (chain : List Block) (st : State) (evs : List Event)
+    (h : run cfg chain = .ok (st, evs)) (hc : InsLift.InsChain chain) (seq : Nat) :
+    AL.get (replay cfg evs chain).ids seq = AL.get (project cfg st).ids seq := by
+  have := (c37_inscription_invariant cfg chain st evs h hc).einv.ids seq
+  show AL.get (evs.foldl (applyEvent chain) {}).ids seq =
+    AL.get ((enumFrom 0 st.entries).map (fun p => (p.1, p.2.id))) seq
+  rw [this, ReplayIns.get_enumFrom_map]
+  simp
+
+/-- **The unbound counter**: the number of `InscriptionCreated` events without a location is
+`Statistic::UnboundInscriptions`. -/
+theorem c37_unbound_counter (cfg : Cfg) (chain : List Block) (st : State) (evs : List Event)
+    (h : run cfg chain = .ok (st, evs)) (hc : InsLift.InsChain chain) :
+    (replay cfg evs chain).unbound = (project cfg st).unbound :=
+  (c37_inscription_invariant cfg chain st evs h hc).einv.unbound
+
+/-- **C37, every component, every valid chain.**  For every configuration and every chain accepted
+by C16's validity predicate, if indexing succeeds then replaying the emitted events reproduces the
+inscription locations, charms, ids (as maps), the unbound counter, the set of runes (as a list, in
+etching order), the mint counts (as a map), the burned totals (absent = 0), and the output balances
+(the same rows in the same order), with no rune event left unattributed. -/
+theorem c37_replay (cfg : Cfg) (chain : List Block) (st : State) (evs : List Event)
+    (h : run cfg chain = .ok (st, evs)) (hv : Valid.validChain chain = true) :
+    (∀ seq, AL.get (replay cfg evs chain).loc seq = AL.get (project cfg st).loc seq) ∧
+    (∀ seq, AL.get (replay cfg evs chain).charms seq = AL.get (project cfg st).charms seq) ∧
+    (∀ seq, AL.get (replay cfg evs chain).ids seq = AL.get (project cfg st).ids seq) ∧
+    (replay cfg evs chain).unbound = (project cfg st).unbound ∧
+    (replay cfg evs chain).runes = (project cfg st).runes ∧
+    (∀ id, AL.get (replay cfg evs chain).mints id = AL.get (project cfg st).mints id) ∧
+    (∀ id, (AL.get (replay cfg evs chain).burned id).getD 0 = (AL.get (project cfg st).burned id).getD 0) ∧
+    (replay cfg evs chain).balances = (project cfg st).balances ∧
+    (replay cfg evs chain).leftover = (project cfg st).leftover :=
+  let hc := (InsLift.insChain_of_validChain chain hv).1
+  let hs := (validChain_lotChainOK chain hv).ok
+  ⟨c37_inscription_locations cfg chain st evs h hc, c37_charms_at_creation cfg chain st evs h hc,
+   c37_ids cfg chain st evs h hc, c37_unbound_counter cfg chain st evs h hc,
+   c37_rune_entries cfg chain st evs h, c37_mints cfg chain st evs h, c37_burned cfg chain st evs h hs,
+   c37_balances cfg chain st evs h hs, c37_no_leftover cfg chain st evs h hs⟩
+
+/-- … hence the executable predicate the oracle line `ix.oracle.replay` evaluates on the
+implementation's own events and tables (`ReplayState.agrees`: every table compared as a map) is
+`true` of the model's events and tables after every valid chain. -/
+theorem c37_replay_agrees (cfg : Cfg) (chain : List Block) (st : State) (evs : List Event)
+    (h : run cfg chain = .ok (st, evs)) (hv : Valid.validChain chain = true) :
+    (replay cfg evs chain).agrees (project cfg st) = true := by
+  obtain ⟨h1, h2, h3, h4, h5, h6, h7, h8, h9⟩ := c37_replay cfg chain st evs h hv
+  exact ReplayIns.agrees_of_components _ _ h1 h2 h3 h4 h5 h6 h7 h8 h9
+
 /-! ### non-vacuity: an index (runes only, to keep the example small) over a three-block chain with an etching (reserved name,
 open mint terms) and a mint of it succeeds, emits `RuneEtched`, `RuneTransferred`, `RuneMinted`, `RuneTransferred`
 (premine 7 + mint 3 = 10 moved to one output), `RuneBurned` (the 10 units sent to an
@@ -139,6 +261,50 @@ example : (match run exCfg (exChain.take 2) with
     | .ok (st, evs) => ((replay exCfg evs (exChain.take 2)).balances, st.balances)
     | _ => ([], [])) = ([(⟨22, 1⟩, [(⟨0, 1⟩, 10)])], [(⟨22, 1⟩, [(⟨0, 1⟩, 10)])]) := by decide
 
+
+/-! ### non-vacuity, inscription components: a valid chain that reveals an inscription (block 1, output
+`3:0`), moves it into an OP_RETURN output (block 2: `5:0`, burned bit set by the transfer), reveals
+an unbound one (block 3: unrecognized even field) and reveals a third on a sat that goes to fees in a
+block whose coinbase does not claim them (block 4: lost at creation, `null:0`).  Indexing succeeds,
+four inscription events are emitted, and the replay reproduces the tables. -/
+
+def insCfg : Cfg :=
+  { indexSats := true, indexAddresses := false, indexTransactions := false, indexInscriptions := true, indexRunes := false, firstInscriptionHeight := 0, jubileeHeight := 0, firstRuneHeight := 0 }
+def iCbIn : TxIn := { prev := OutPoint.null, taproot := false, confHeight := none, pushes := [] }
+def iOut (v : Nat) : TxOut := { value := v, opReturn := false, script := [1] }
+def iCb (txid : Txid) (v : Nat) : Tx := { txid := txid, inputs := [iCbIn], outputs := [iOut v], envelopes := [], artifact := none, size := 0 }
+def iEnv (unrec : Bool) : Envelope :=
+  { input := 0, offset := 0, unrecognizedEven := unrec, duplicateField := false, incompleteField := false, pushnum := false, stutter := false, hidden := false, gallery := false, pointerField := false, pointer := none, parents := [] }
+def iSpend (txid : Txid) (prev : OutPoint) (envs : List Envelope) (outs : List TxOut) : Tx :=
+  { txid := txid, inputs := [{ prev := prev, taproot := true, confHeight := some 0, pushes := [] }], outputs := outs, envelopes := envs, artifact := none, size := 0 }
+def insChain : List Block :=
+  [ { height := 0, time := 0, hash := 100, minimumRune := 0, txs := [iCb 1 5000000000] },
+    { height := 1, time := 0, hash := 101, minimumRune := 0, txs := [iCb 2 5000000000, iSpend 3 ⟨1, 0⟩ [iEnv false] [iOut 5000000000]] },
+    { height := 2, time := 0, hash := 102, minimumRune := 0,
+      txs := [iCb 4 5000000000, iSpend 5 ⟨3, 0⟩ [] [{ value := 1, opReturn := true, script := [] }, iOut 4999999999]] },
+    { height := 3, time := 0, hash := 103, minimumRune := 0, txs := [iCb 6 5000000000, iSpend 7 ⟨5, 1⟩ [iEnv true] [iOut 4999999999]] },
+    { height := 4, time := 0, hash := 104, minimumRune := 0, txs := [iCb 8 5000000000, iSpend 9 ⟨7, 0⟩ [iEnv false] []] } ]
+
+example : Valid.validChain insChain = true := by decide
+
+example : (match run insCfg insChain with
+    | .ok (st, evs) =>
+      (evs.length, (replay insCfg evs insChain).loc, st.seq2sp, (replay insCfg evs insChain).unbound,
+        (replay insCfg evs insChain).agrees (project insCfg st))
+    | _ => (0, [], [], 0, false)) =
+    (4, [(0, ⟨⟨5, 0⟩, 0⟩), (1, ⟨OutPoint.unbound, 0⟩), (2, ⟨OutPoint.null, 0⟩)],
+      [(0, ⟨⟨5, 0⟩, 0⟩), (1, ⟨OutPoint.unbound, 0⟩), (2, ⟨OutPoint.null, 0⟩)], 1, true) := by
+  decide
+
+/-- charms: the burned bit (4096) of inscription 0 comes from the transfer into the OP_RETURN output
+(its creation event does not carry it); unbound (256) + vindicated (1024) of 1 and lost (16) of 2 come
+from their creation events; the other bits are sat charms -/
+example : (match run insCfg insChain with
+    | .ok (st, evs) => ((replay insCfg evs insChain).charms, (project insCfg st).charms)
+    | _ => ([], [])) =
+    ([(0, 14337), (1, 1280), (2, 8208)], [(0, 14337), (1, 1280), (2, 8208)]) := by
+  decide
+
 #print axioms c37_rune_block_step
 #print axioms c37_rune_entries
 #print axioms c37_mints
@@ -147,5 +313,12 @@ example : (match run exCfg (exChain.take 2) with
 #print axioms c37_no_leftover
 #print axioms c37_balances_tx_step
 #print axioms c37_utxo_pass_emits_no_rune_event
+#print axioms c37_uil_event_mirrors_write
+#print axioms c37_inscription_locations
+#print axioms c37_charms_at_creation
+#print axioms c37_ids
+#print axioms c37_unbound_counter
+#print axioms c37_replay
+#print axioms c37_replay_agrees
 
 end Ord.Index
